@@ -179,11 +179,23 @@ def explore(spec, report, max_depth, max_states=None, sig_base=None, stop_on_fir
         if max_depth is not None and len(hist) >= max_depth:
             closed = False
             continue
-        impl, model = rebuild(init, hist)
+        try:
+            impl, model = rebuild(init, hist)
+        except Mismatch as m:
+            # the same history passed when it was first executed: the library's behaviour depends on something
+            # other than the operations (memory addresses, leftover state); the failing replay is a real execution
+            report_mismatch(Mismatch(m.kind, "when the history was executed again: " + str(m.detail),
+                                     dict(m.sig_extra, reproducible=False)), init, hist, None)
+            continue
         menu = spec.ops(impl, model)
         spec.cleanup(impl)
         for op in menu:
-            impl, model = rebuild(init, hist)
+            try:
+                impl, model = rebuild(init, hist)
+            except Mismatch as m:
+                report_mismatch(Mismatch(m.kind, "when the history was executed again: " + str(m.detail),
+                                         dict(m.sig_extra, reproducible=False)), init, hist, None)
+                break
             transitions += 1
             try:
                 model2 = spec.step(impl, model, op)
